@@ -26,6 +26,7 @@ RULES = [
     ('global-mutable-state', r'\bstatic\s+mut\b|\bthread_local!|\bAtomic(?:U|I|Bool|Usize)\w*|\blazy_static!|\bMutex\b|\bRwLock\b'),
     ('address-dependent-value', r'\bas_ptr\s*\(|\bas\s+\*const\b|\bas\s+\*mut\b|\baddr\s*\(|\{:p\}'),
     ('hash-order-iteration', r'memo\s*\.\s*(?:iter|iter_mut|into_iter)\s*\(|\bin\s+&?(?:mut\s+)?self\s*\.\s*state\s*\.\s*memo\b|\.keys\s*\(\)|\.values\s*\(\)|\.values_mut\s*\(\)|\.drain\s*\(\)|\.into_keys\s*\(\)|\.into_values\s*\(\)'),
+    ('allocation-dependent-value', r'\.\s*capacity\s*\(\s*\)|\bspare_capacity_mut\b|\bmem::size_of_val\b'),
     ('hash-randomness', r'\bRandomState\b|\bDefaultHasher\b|\bBuildHasher\b'),
     ('filesystem-or-network', r'\bstd::fs\b|\bFile::|\bTcpStream\b|\bstd::net\b'),
 ]
@@ -49,7 +50,17 @@ ALLOWED = [
 FOR_OVER_HASH = re.compile(r'for\s+(\(?[\w\s,]+\)?)\s+in\s+(\w+)\s*\{')
 
 
-def scan():
+# which property a rule speaks for (default: C07 only).  A value that survives reset() outside the modelled
+# state makes a call depend on the generator's history (C08) but not on anything outside configuration,
+# entropy and history, so it is not a C07 matter; mutable globals are both.
+RULE_PROPS = {'allocation-dependent-value': ('C08',), 'global-mutable-state': ('C07', 'C08'), 'static-item': ('C07', 'C08')}
+
+
+def scan(prop='C07'):
+    return [f for f in _scan() if prop in RULE_PROPS.get(f['rule'], ('C07',)) or f['rule'] == 'missing-file']
+
+
+def _scan():
     findings = []
     for rel in LIB_FILES:
         path = os.path.join(REPO, rel)
@@ -90,7 +101,8 @@ def scan():
 
 if __name__ == '__main__':
     import json
-    fs = scan()
+    import sys
+    fs = scan(sys.argv[1] if len(sys.argv) > 1 else 'C07')
     print(json.dumps(fs, indent=1))
     bad = [f for f in fs if not f['allowed']]
     print('%d findings, %d not allowed' % (len(fs), len(bad)))
